@@ -1,12 +1,13 @@
 /-
   Model of pgdump/jsonb.go:156-250 (decodeJNumeric, DecodeNumeric, decodeNumericShort,
-  decodeNumericLong, computeNumeric) as repaired by fixes/numjson/01..03.
+  decodeNumericLong, computeNumeric) as repaired by fixes/numjson/01..03 and 09.
 
   The Go code returns a `float64`.  Lean's `Float` is opaque to the kernel, so the model carries the
   number *exactly*: sign, integer mantissa `Σ dᵢ·10000^(k-1-i)` and base-10000 exponent
   `weight - k + 1` — i.e. what `computeNumeric` computes when every operation is exact.  The
-  rounding of that value to a double (`result*10000 + d` per digit, then one multiplication or
-  division by `math.Pow(10000, |e|)`) is checked on the implementation side only (harness:
+  rounding of that value to a double (fix 09: one call of strconv.ParseFloat on the exact decimal text;
+  before the fix `result*10000 + d` per digit, then one multiplication or division by
+  `math.Pow(10000, |e|)`, up to 8 ulp off) is checked on the implementation side only (harness:
   math/big oracle) and is the documented partial aspect of C05.
 -/
 import PgVerif.Basic.Bytes
@@ -28,9 +29,13 @@ deriving Repr, DecidableEq, Inhabited
 /-- `for _, d := range digits { result = result*10000 + float64(d) }` in exact arithmetic -/
 def mantissa (digits : List Nat) : Nat := digits.foldl (fun r d => r * 10000 + d) 0
 
-/-- jsonb.go:computeNumeric (exact).  `len(digits) == 0` returns `float64(0)`. -/
+/-- jsonb.go:computeNumeric (exact).  `len(digits) == 0` returns `float64(0)`; a word that is not a
+base-10000 digit makes the value corrupt: nil (fix 09).  Otherwise the decimal text
+`<digits, 4 characters each>e<4·(weight-k+1)>` is handed to strconv.ParseFloat, whose documented
+result is the float64 nearest to the decimal value: that value is what the model carries. -/
 def computeNumeric (digits : List Nat) (weight : Int) (neg : Bool) : NumRes :=
   if digits.length == 0 then .num false 0 0
+  else if digits.any (fun d => decide (d ≥ 10000)) then .none
   else .num neg (mantissa digits) (weight - digits.length + 1)
 
 /-- `for i := 0; i < ndigits; i++ { digits[i] = int(u16(raw, base+i*2)) }`; `n` iterations left -/
